@@ -823,6 +823,24 @@ async fn ensure_proposition(
 
     let key = tuple_key(&tx.cx.space, &subject, &symbol.to_string(), &object);
 
+    // The same tuple, ensured by an earlier clause of this same statement and
+    // not yet written: it resolves to that one element (§59), exactly as it
+    // would have had the two clauses been two statements.
+    if let Some(id) = tx.staged_proposition(&key) {
+        if let Some(expected) = expect_version
+            && expected != 0
+        {
+            return Err(KipError::version_conflict(format!(
+                "this tuple is being created by this statement, so it cannot be at version \
+                 {expected}"
+            )));
+        }
+        if let Some(handle) = &clause.handle {
+            tx.bind_existing(handle, id)?;
+        }
+        return Ok(());
+    }
+
     // Resolve-or-create: one Space keeps one canonical Proposition per
     // semantic tuple (§59), so an existing tuple is bound rather than
     // duplicated — and binding it changes nothing, because the tuple is
